@@ -163,6 +163,13 @@ class ParserModel(object):
                     fn.var_names[ph.res] = 'state'
         self.states = sorted(v for v, _ in self.state_switch.cases)
         self.mod_sets = ctx.mod_sets
+        # scalar locals kept in a stack slot (address taken): name by register
+        self.slot_vars = {}
+        for ins in fn.blocks[fn.order[0]].instrs:
+            if ins.op == 'alloca' and ins.srcty.strip() in ('i8*', 'i32', 'i64', '%struct.cfg_opt_t*', '%union.cfg_value_t*'):
+                nm = fn.var_names.get(ins.res)
+                if nm and nm not in self.phis:
+                    self.slot_vars[ins.res] = nm
         self.ex = sym.Explorer(ctx.modules, inline=callback_wrappers(ctx), max_visits=2, max_paths=20000, mod_sets=self.mod_sets)
         self._table = {}
 
@@ -231,14 +238,23 @@ class ParserModel(object):
             if seeds and nm in seeds:
                 env[ph.res] = ('c', seeds[nm])
         env[self.state_phi.res] = ('c', state)
+        # locals whose address is taken (handed to a helper by reference) live in memory instead of in a
+        # loop-carried SSA value: seed the slot with the same symbol, read the final content back below
+        mem = {}
+        for reg, nm in self.slot_vars.items():
+            mem[('alloca', reg)] = ('c', seeds[nm]) if seeds and nm in seeds else ('p', nm)
         paths = self.ex.explore(fn, start=self.header, env=env, stop=[self.header],
                                 call_results={'cfg_yylex': [('c', tok)]},
-                                neq={('p', 'cfg'): {0}})
+                                neq={('p', 'cfg'): {0}}, mem=mem)
         out = []
         for p in paths:
             if p.end == 'cut':
                 continue
-            out.append(Transition(state, tok, p, self))
+            tr = Transition(state, tok, p, self)
+            for reg, nm in self.slot_vars.items():
+                if nm not in tr.next:
+                    tr.next[nm] = p.mem.get(('alloca', reg), ('p', nm))
+            out.append(tr)
         if not out:
             raise sym.AnalysisIncomplete('no residual path for state %d token %s' % (state, TOKNAME.get(tok, tok)))
         self._table[key] = out
